@@ -6,6 +6,7 @@ import MotoModel.Props.C03
 import MotoModel.Props.C08
 import MotoModel.Props.C09
 import MotoModel.Proofs.PathNorm
+import MotoModel.Proofs.Names
 namespace Moto.C01
 open Moto Moto.Tape
 
@@ -211,5 +212,35 @@ theorem roundtrip_beside_archive (w : World) (v1 v2 : Bool) (archive : Str) (src
 example : NameOK (str "A") (str "BAS") := ⟨by decide, by decide, by decide, by decide, by decide⟩
 example : NameOK (str "NOEXT") [] := ⟨by decide, by decide, by decide, by decide, by decide⟩
 example : catalogName (str "dir.d/prog.bas,a") = str "PROG.BAS" := by decide
+
+
+theorem upperC_idem (c : Nat) : upperC (upperC c) = upperC c := by
+  unfold upperC; split <;> (try split) <;> omega
+
+theorem upper_field (n : Nat) (s : Str) : upper (Spec.Names.field n s) = Spec.Names.field n s := by
+  unfold Spec.Names.field upper
+  rw [← List.map_take, List.map_map]
+  congr 1
+  funext c
+  exact upperC_idem c
+
+/-- **C01 ("under its upper-cased 8.3 name")**: the name every theorem of this file files a source under —
+    `catalogName` — is, for every argument string, `NAME.EXT` of the naming rule `Spec.Names.tapeSource`: 8 characters of
+    the upper-cased stem of the last path component, a dot, 3 characters of the upper-cased text after its last dot
+    (`C03.source_naming_rule`). -/
+theorem catalog_name_is_8_3 (src : Str) :
+    catalogName src = (Spec.Names.tapeSource src).name ++ [46] ++ (Spec.Names.tapeSource src).ext := by
+  unfold catalogName
+  rw [C03.source_naming_rule src]
+  simp only
+  have hn : upper (Spec.Names.tapeSource src).name = (Spec.Names.tapeSource src).name := by
+    unfold Spec.Names.tapeSource
+    split <;> exact upper_field 8 _
+  have he : upper (Spec.Names.tapeSource src).ext = (Spec.Names.tapeSource src).ext := by
+    unfold Spec.Names.tapeSource
+    split
+    · rfl
+    · exact upper_field 3 _
+  rw [hn, he]
 
 end Moto.C01
